@@ -42,6 +42,11 @@ def run(ctx):
         states += r["distinct"]; trans += r["generated"]
     ctx.model_check("AtomicWrite", MC_CFG % ("inplace", "TRUE"), name="AtomicWrite-defect-inplace", workers=2, expect_violation=("Intact", "ReportsFailure"))
     # unbounded safety of the conforming design: TLAPS proof that temp-file + rename keeps the target intact
+    # two consecutive runs, the first one killed at any step: what the second inherits (leftover temporary file)
+    runs_cfg = "SPECIFICATION RSpec\nCONSTANT TmpOpen = \"%s\"\nINVARIANTS NeverMixed SecondRunTakesEffect\nCHECK_DEADLOCK FALSE\n"
+    r5 = ctx.model_check("AtomicRuns", runs_cfg % "fresh", name="AtomicRuns-exh", workers=1)
+    states, trans = states + r5["distinct"], trans + r5["generated"]
+    ctx.model_check("AtomicRuns", runs_cfg % "keep", name="AtomicRuns-defect-keep", workers=1, expect_violation=("NeverMixed", "SecondRunTakesEffect"))
     ctx.tlaps("AtomicWriteProof")
     tr = os.path.join(ctx.work, "atomic.ndjson")
     i = ctx.run_vh(["atomic-run", "-out", tr, "-every", 9 if q else 1], timeout=3000)
